@@ -52,6 +52,13 @@ Section Marshal.
   Definition enc_paths_d (D : nat) (ps : cpaths) : option (list E) :=
     match ps with [] => None | _ => Some (enc_paths D ps) end.
 
+  (* the documented CPaths layout as a CALLER may build it: every path is an entry, an empty one as [0; 0];
+     A = number of elements, C = number of entries.  The library's creators never write an empty entry
+     (see [enc_body]) but its decoders are handed such arrays by C / C# / Delphi clients. *)
+  Definition enc_paths_raw (ps : cpaths) : list E :=
+    let body := flat_map enc_path ps in
+    ofc (Z.of_nat (2 + length body)) :: ofc (Z.of_nat (length ps)) :: body.
+
   (* ---------------------------------------------------------------- writing through a cursor *)
   Fixpoint wr (b : list E) (i : nat) (x : E) : option (list E) :=
     match b, i with
@@ -315,6 +322,11 @@ Definition f64_dec_paths := dec_paths Z toc_f64.
 Example enc_ex : i64_enc_paths 2 [[[0;0];[5;0];[5;5]]; []; [[7;8]]] = [14; 2; 3;0; 0;0; 5;0; 5;5; 1;0; 7;8].
 Proof. reflexivity. Qed.
 Example dec_ex : i64_dec_paths 2 [14; 2; 3;0; 0;0; 5;0; 5;5; 1;0; 7;8] = Some [[[0;0];[5;0];[5;5]]; [[7;8]]].
+Proof. reflexivity. Qed.
+(* a caller-built array with an empty entry in the middle: the decoder returns every entry, the empty one too *)
+Example raw_ex : enc_paths_raw Z ofc_i64 0 [[[0;0];[5;0];[5;5]]; []; [[7;8]]] = [16; 3; 3;0; 0;0; 5;0; 5;5; 0;0; 1;0; 7;8].
+Proof. reflexivity. Qed.
+Example dec_raw_ex : i64_dec_paths 2 [16; 3; 3;0; 0;0; 5;0; 5;5; 0;0; 1;0; 7;8] = Some [[[0;0];[5;0];[5;5]]; []; [[7;8]]].
 Proof. reflexivity. Qed.
 Example dec_overread_ex : i64_dec_paths 2 [13; 2; 3;0; 0;0; 5;0; 5;5; 1;0; 7;8] = None.
 Proof. reflexivity. Qed.
